@@ -92,17 +92,39 @@ Proof.
   exact (incl_b_sound _ endpoint_eqb_eq _ _ H e He).
 Qed.
 
+Lemma bitref_eqb_eq a b : bitref_eqb a b = true -> a = b.
+Proof.
+  destruct a, b; unfold bitref_eqb; simpl; intro H. apply andb_true_iff in H as [H1 H2].
+  apply str_eqb_spec in H1. apply Z.eqb_eq in H2. now subst.
+Qed.
+
+Lemma obit_eqb_eq a b : obit_eqb a b = true -> a = b.
+Proof. destruct a, b; simpl; intro H; try discriminate; [apply bitref_eqb_eq in H; now subst|reflexivity]. Qed.
+
+Lemma opair_eqb_eq a b : opair_eqb a b = true -> a = b.
+Proof.
+  destruct a, b; unfold opair_eqb; simpl; intro H. apply andb_true_iff in H as [H1 H2].
+  apply obit_eqb_eq in H1. apply obit_eqb_eq in H2. now subst.
+Qed.
+
+Lemma assigns_sound a b :
+  assigns_b a b = true -> same_set (nd_assigns a) (nd_assigns b) /\ length (nd_assigns a) = length (nd_assigns b).
+Proof.
+  unfold assigns_b. intro H. apply andb_true_iff in H as [H H3]. apply andb_true_iff in H as [H1 H2].
+  apply Nat.eqb_eq in H3. split; [|exact H3]. intro x. split; intro Hx.
+  - exact (incl_b_sound _ (list_eqb_eq _ opair_eqb_eq) _ _ H1 x Hx).
+  - exact (incl_b_sound _ (list_eqb_eq _ opair_eqb_eq) _ _ H2 x Hx).
+Qed.
+
 Lemma same_conn_def_sound a b : same_conn_def_b a b = true -> same_conn_def a b.
 Proof.
   unfold same_conn_def_b. intro H.
   apply andb_true_iff in H as [H H6]. apply andb_true_iff in H as [H H5]. apply andb_true_iff in H as [H H4].
-  apply andb_true_iff in H as [H H3]. apply andb_true_iff in H as [H1 H2].
-  apply str_eqb_spec in H1. apply (list_eqb_eq _ port_eqb_eq) in H2.
-  repeat split; try assumption.
-  - now apply insts_in_sound.
-  - now apply insts_in_sound.
-  - now apply nets_incl_sound.
-  - now apply nets_incl_sound.
+  apply andb_true_iff in H as [H H3]. apply andb_true_iff in H as [H H2]. apply andb_true_iff in H as [H0 H1].
+  apply str_eqb_spec in H1. apply (list_eqb_eq _ port_eqb_eq) in H2. apply assigns_sound in H0 as [A1 A2].
+  split; [exact H1|]. split; [exact H2|]. split; [now apply insts_in_sound|]. split; [now apply insts_in_sound|].
+  split; [|split; assumption].
+  intro r. split; intro; [eapply nets_incl_sound; eassumption|eapply nets_incl_sound; eassumption].
 Qed.
 
 Lemma find_ndef_in n name d : find_ndef n name = Some d -> In d (nv_defs n) /\ nd_name d = name.
@@ -132,7 +154,8 @@ Lemma emit_deterministic o n (r1 r2 : wres vdoc) : emit o n = r1 -> emit o n = r
 Proof. intros <- <-. reflexivity. Qed.
 
 (* ---------- a worked example: three levels, buses, a concatenation on a partially connected port, an
-   unconnected port, a part select, parameters, an attribute, a single-bit assign ---------- *)
+   unconnected port, a part select, parameters, an attribute, a single-bit assign, a 3-bit assign between
+   slices of different bases of cables whose lower index is not 0 ---------- *)
 From Coq Require Import String.
 Definition S_ (s : string) : str := s2l s.
 Definition ex_leaf : vmodule :=
@@ -158,7 +181,9 @@ Definition ex_top : vmodule :=
                  IInst (S_ "sub") (S_ "u2") [] [(S_ "mark", None)]
                    (CNamed [(S_ "x", Some (DAtom (DId (S_ "t")))); (S_ "z", Some (DAtom (DId (S_ "y"))));
                             (S_ "q", Some (DAtom (DId (S_ "n1"))))]);
-                 IAssign (DId (S_ "n1")) (DBit (S_ "a") 3)] |}.
+                 IAssign (DId (S_ "n1")) (DBit (S_ "a") 3);
+                 IWire TWire (Some (6, 2)) [S_ "v"] []; IWire TReg (Some (0, -3)) [S_ "w"] [];
+                 IAssign (DPart (S_ "v") 5 3) (DPart (S_ "w") (-1) (-3))] |}.
 Definition ex_src : vdoc := [ex_top; ex_sub; ex_leaf].
 Definition ex_opts : vopts := {| o_definition_list := None; o_write_blackbox := true; o_defparam := false |}.
 Definition ex_opts_dp : vopts := {| o_definition_list := Some [S_ "top"; S_ "sub"]; o_write_blackbox := false; o_defparam := true |}.
